@@ -9,24 +9,31 @@ Theorem C10_no_panic_open_table :
 Proof. exact no_panic_open_table. Qed.
 Print Assumptions C10_no_panic_open_table.
 
-Theorem C10_no_panic_table_guarded :
-  forall crc file cnt t, open_table file cnt = Ok t -> index_guards t = true ->
+Theorem C10_no_panic_table :
+  forall crc file t,
     (forall h, has t h <> Panic) /\ (forall h, get crc file t h <> Panic)
     /\ (forall hs, get_many t hs <> GMCrash) /\ iterate crc file t <> Panic.
-Proof. exact no_panic_table_guarded. Qed.
-Print Assumptions C10_no_panic_table_guarded.
+Proof. exact no_panic_table. Qed.
+Print Assumptions C10_no_panic_table.
 
-Theorem C10_no_panic_table_refuted :
-  (exists file cnt t h, open_table file cnt = Ok t /\ get crc32c file t h = Panic)
-  /\ (exists file cnt t h, open_table file cnt = Ok t /\ has t h = Panic)
-  /\ (exists file cnt t, open_table file cnt = Ok t /\ iterate crc32c file t = Panic)
-  /\ (exists file cnt t h, open_table file cnt = Ok t /\ get_many t [h] = GMCrash).
-Proof. exact no_panic_table_refuted. Qed.
-Print Assumptions C10_no_panic_table_refuted.
+Theorem C10_no_panic_journal_scan :
+  forall crc data, scan_journal crc data <> Panic.
+Proof. exact no_panic_journal_scan. Qed.
+Print Assumptions C10_no_panic_journal_scan.
+
+Theorem C10_no_panic_manifest :
+  forall s, parse_manifest s <> Panic.
+Proof. exact no_panic_manifest. Qed.
+Print Assumptions C10_no_panic_manifest.
+
+Theorem C10_oracle_accepts_model :
+  forall i, oracle i (model_obs i) = true.
+Proof. exact oracle_model. Qed.
+Print Assumptions C10_oracle_accepts_model.
 
 Theorem C10_no_misread_get :
   forall crc file t h comp, get crc file t h = Ok (Some comp) ->
-    exists idx off len, designated t h idx /\ ord_at t idx <> ti_count t
+    exists idx off len, designated t h idx /\ ord_at t idx < ti_count t
       /\ get_index_entry t (ord_at t idx) = Ok (off, len) /\ record_at crc file off len comp.
 Proof. exact no_misread_get. Qed.
 Print Assumptions C10_no_misread_get.
@@ -39,24 +46,15 @@ Theorem C10_no_misread_refuted :
 Proof. exact no_misread_refuted. Qed.
 Print Assumptions C10_no_misread_refuted.
 
-Theorem C10_no_panic_journal_scan_wf :
-  forall crc, fields_wf crc -> forall data, scan_journal crc data <> Panic.
-Proof. exact no_panic_journal_scan_wf. Qed.
-Print Assumptions C10_no_panic_journal_scan_wf.
+Theorem C10_iterate_mislabel_refuted :
+  exists f f' cnt t t' l l',
+    open_table f cnt = Ok t /\ open_table f' cnt = Ok t'
+    /\ iterate crc32c f t = Ok l /\ iterate crc32c f' t' = Ok l'
+    /\ map snd l = map snd l' /\ map fst l <> map fst l'.
+Proof. exact iterate_mislabel_refuted. Qed.
+Print Assumptions C10_iterate_mislabel_refuted.
 
-Theorem C10_no_panic_journal_refuted :
-  exists data, scan_journal crc32c data = Panic.
-Proof. exact no_panic_journal_refuted. Qed.
-Print Assumptions C10_no_panic_journal_refuted.
-
-Theorem C10_manifest_panic_only_root :
-  forall s, parse_manifest s = Panic ->
-    exists vers rest, read_version 8 s [] = Some (vers, rest)
-      /\ valid_hash_str (nth 2 (split_on colon rest) []) = false.
-Proof. exact manifest_panic_only_root. Qed.
-Print Assumptions C10_manifest_panic_only_root.
-
-Theorem C10_no_panic_manifest_refuted :
-  exists s, parse_manifest s = Panic.
-Proof. exact no_panic_manifest_refuted. Qed.
-Print Assumptions C10_no_panic_manifest_refuted.
+Theorem C10_hash_at_refuted :
+  exists file cnt t idx, open_table file cnt = Ok t /\ idx < ti_count t /\ hash_at t idx = Panic.
+Proof. exact hash_at_refuted. Qed.
+Print Assumptions C10_hash_at_refuted.
